@@ -3,6 +3,7 @@ package main
 import (
 	"encoding/json"
 	"fmt"
+	"go/types"
 	"os"
 	"path/filepath"
 	"regexp"
@@ -427,6 +428,20 @@ func cmdCheck(args []string) int {
 	}
 	sort.Strings(assumedC)
 	cov["callee_contracts_assumed_here"] = assumedC
+	// a second contract (aspect) of a function is proved under its own precondition; callers outside the aspect are
+	// checked against the main contract only, so that precondition is an assumption about them
+	var aspectPre []string
+	for _, k := range funcsDone {
+		if fi := byKey[k]; fi != nil && fi.Aspect != "" && fi.Spec != nil {
+			for _, c := range fi.Spec.Requires {
+				aspectPre = append(aspectPre, fmt.Sprintf("%s requires %s - ASSUMED of callers that are not verified in aspect %q", k, types.ExprString(c.Expr), fi.Aspect))
+			}
+		}
+	}
+	if len(aspectPre) > 0 {
+		sort.Strings(aspectPre)
+		cov["aspect_preconditions_assumed"] = aspectPre
+	}
 	if len(side) > 0 {
 		var bl []any
 		for _, s := range side {
